@@ -12,6 +12,7 @@ import (
 	"path/filepath"
 	"strconv"
 	"strings"
+	"sync/atomic"
 	"testing"
 	"time"
 
@@ -149,11 +150,58 @@ var c14c struct {
 	body    []byte
 	status  int
 	ln      net.Listener
+	// script: how the HTTP source answers the 1st, 2nd, … request of the current
+	// save (ok, slow, cut, reset, 500); requests beyond it are answered "ok".
+	script []string
+	reqs   atomic.Int32
 }
 
 func must(err error) {
 	if err != nil {
 		panic(err)
+	}
+}
+
+// c14Serve answers one request of the list's HTTP source according to the
+// script of the current save.
+func c14Serve(w http.ResponseWriter, _ *http.Request) {
+	n := int(c14c.reqs.Add(1))
+	if c14c.status != 0 {
+		w.WriteHeader(c14c.status)
+
+		return
+	}
+	beh := "ok"
+	if n <= len(c14c.script) {
+		beh = c14c.script[n-1]
+	}
+	body := c14c.body
+	switch beh {
+	case "500":
+		w.WriteHeader(http.StatusInternalServerError)
+	case "cut", "reset":
+		// Announce the whole list, send half of it (at least one rule line when
+		// there are several) and drop the connection.
+		hj, ok := w.(http.Hijacker)
+		if !ok {
+			panic("no hijacker")
+		}
+		conn, buf, err := hj.Hijack()
+		must(err)
+		_, _ = fmt.Fprintf(buf, "HTTP/1.1 200 OK\r\nContent-Type: text/plain\r\nContent-Length: %d\r\nConnection: close\r\n\r\n", len(body))
+		_, _ = buf.Write(body[:len(body)/2])
+		_ = buf.Flush()
+		if tc, isTCP := conn.(*net.TCPConn); isTCP && beh == "reset" {
+			// Let the data reach the client, then reset instead of FIN.
+			time.Sleep(20 * time.Millisecond)
+			_ = tc.SetLinger(0)
+		}
+		_ = conn.Close()
+	case "slow":
+		time.Sleep(120 * time.Millisecond)
+		_, _ = w.Write(body)
+	default:
+		_, _ = w.Write(body)
 	}
 }
 
@@ -188,14 +236,7 @@ func c14Child(f []string) []string {
 			c14c.ln = ln
 			c14c.addr = ln.Addr().String()
 			go func() {
-				_ = http.Serve(ln, http.HandlerFunc(func(w http.ResponseWriter, _ *http.Request) {
-					if c14c.status != 0 {
-						w.WriteHeader(c14c.status)
-
-						return
-					}
-					_, _ = w.Write(c14c.body)
-				}))
+				_ = http.Serve(ln, http.HandlerFunc(c14Serve))
 			}()
 		}
 		flt := FilterYAML{Enabled: true, URL: c14URL(0), Name: "c14", Filter: Filter{ID: 7}}
@@ -234,6 +275,12 @@ func c14Save(variant, sizeS, seedS, probe string) []string {
 	before, _ := os.ReadFile(dest)
 	oldSum := vc14.FileSum(dest)
 
+	c14c.script = nil
+	if i := strings.IndexByte(variant, '@'); i >= 0 {
+		c14c.script = strings.Split(variant[i+1:], ",")
+		variant = variant[:i]
+	}
+	c14c.reqs.Store(0)
 	setURL := strings.HasPrefix(variant, "seturl")
 	spoil, missing := "", false
 	switch strings.TrimPrefix(variant, "seturl") {
@@ -297,7 +344,7 @@ func c14Save(variant, sizeS, seedS, probe string) []string {
 	lim := vc14.FsizeOf(probe)
 	wantErr := spoil != "" || missing || strings.HasPrefix(probe, "faildir") || (lim >= 0 && int64(len(want)) > lim) ||
 		strings.HasSuffix(probe, "+leak")
-	if !committed && (err != nil) != wantErr {
+	if !committed && (err != nil) != wantErr && len(c14c.script) == 0 {
 		finalOK = false
 	}
 	if setURL && err != nil && c14c.flt.URL != oldURL {
@@ -305,7 +352,10 @@ func c14Save(variant, sizeS, seedS, probe string) []string {
 		finalOK = false
 	}
 
-	return []string{vutil.B(committed), strconv.Itoa(len(after)), vutil.B(finalOK), oldSum, vc14.FileSum(dest)}
+	// What the save was meant to store: length and number of rule lines (one
+	// write each) of the ONE complete list served.
+	return []string{vutil.B(committed), strconv.Itoa(len(want)), vutil.B(finalOK), oldSum, vc14.FileSum(dest),
+		strconv.Itoa(int(c14c.reqs.Load())), strconv.Itoa(bytes.Count(want, []byte("\n")))}
 }
 
 // ---------------------------------------------------------------- parent
@@ -457,6 +507,15 @@ func (p *c14Parent) gen(r *rand.Rand, emit vutil.Emit) {
 				return len(w), len(w) == 0
 			}
 
+			// Requests the HTTP source must see in one update: one, none when the
+			// temporary file cannot even be created.
+			reqsOf := func(fault string) string {
+				if src != "http" || fault == "faildir" {
+					return "0"
+				}
+
+				return "1"
+			}
 			v := r.IntN(26)
 			if v >= 11 && v < 14 && st.fileEmpty {
 				v, size = 0, 0
@@ -466,8 +525,17 @@ func (p *c14Parent) gen(r *rand.Rand, emit vutil.Emit) {
 			case v < 11:
 				wantLen, empty := body(size, seed)
 				changed := !empty || !st.ckZero
-				commit, pr := leak(changed && !writeFails(wantLen))
-				emit("C14.save", "ok", sz, sd, vutil.B(commit), "0", pr)
+				// The HTTP source may answer the attempts of one update differently; the
+				// code asks once, so the first answer decides.
+				variant, firstOK := "ok", true
+				if src == "http" && size >= 200 && r.IntN(3) == 0 {
+					script := vutil.Pick(r, []string{"cut,ok", "reset,ok", "cut,cut,ok", "500,ok", "ok,cut", "slow,ok",
+						"cut,cut,cut", "reset,reset,ok"})
+					variant = "ok@" + script
+					firstOK = strings.HasPrefix(script, "ok") || strings.HasPrefix(script, "slow")
+				}
+				commit, pr := leak(changed && !writeFails(wantLen) && firstOK)
+				emit("C14.save", variant, sz, sd, vutil.B(commit), "0", pr, reqsOf(fault))
 				if commit {
 					st.size, st.seed, st.wantLen, st.fileEmpty, st.ckZero = size, seed, wantLen, empty, empty
 				}
@@ -532,7 +600,7 @@ func (p *c14Parent) run(f []string) []string {
 	case "C14.save":
 		rd := vc14.StartReader(p.dest)
 		resp, events, err := p.child.Do("save", f[1], f[2], f[3], f[6])
-		if err != nil || len(resp) != 5 {
+		if err != nil || len(resp) != 7 {
 			rd.Stop()
 			if err != nil {
 				panic(err)
@@ -546,8 +614,9 @@ func (p *c14Parent) run(f []string) []string {
 		out = append(out, strconv.Itoa(len(names)))
 		out = append(out, names...)
 		out = append(out, strconv.Itoa(len(events)))
+		out = append(out, events...)
 
-		return append(out, events...)
+		return append(out, resp[5], resp[6])
 	default:
 		panic("unknown op " + f[0])
 	}
